@@ -711,7 +711,7 @@ func newObservedMap(pass *analysishelper.EnhancedPass, files []*ast.File) *Obser
 				// Keep searching for nested CallExpr nodes.
 				return true
 			}
-			callSite := CallSite{Fun: funcObj, Location: pass.PosToLocation(expr.Pos())}
+			callSite := CallSite{Fun: funcObj, Location: pass.CallSiteLocation(expr)}
 			for i, val := range accFromFieldList(set, funcDecl.Type.Params, true, true) {
 				if i >= len(expr.Args) {
 					// Fewer argument expressions than parameters: a variadic parameter given no argument,
